@@ -1,5 +1,7 @@
 """C01 — merged output is chronological, with a deterministic tie rule."""
-from vlib import core, coord_common
+import os
+
+from vlib import core, coord_common, e2e
 
 MODS = ['S4V.Props.C06', 'S4V.Props.CoordSpec']
 LEVEL_NOTE = ("Proved: the coordinator's output for every schedule is merge(scripts) (confluence), and merge keeps each source's order "
@@ -12,6 +14,36 @@ ASSUME = ["Iterator::min_by returns the first of several equal minima; BTreeMap 
           "PathIds follow argument order (enumerate over paths_results)"]
 
 
+def naming_forms_oracle(ctx, n):
+    """The tie rule is 'the source named first': the same sources named as arguments, spliced in through `-` (stdin) at
+    the front / in the middle / at the end, or partly on stdin, must give the reference merge in that naming order."""
+    rng = e2e.Rng(ctx.seed * 6151 + 3)
+    fails, ev = [], 0
+    for k in range(n):
+        work = os.path.join(ctx.work, 'nf%d' % k)
+        os.makedirs(work, exist_ok=True)
+        srcs = rng.shuffle(coord_common.make_sources(rng, work, rng.range(3, 5), kinds=('plain', 'plain', 'gz'), tie_heavy=True))
+        exp, _ = coord_common.expected_stdout(srcs)
+        names = [s['name'] for s in srcs]
+        i = rng.range(0, len(names) - 1)
+        j = rng.range(i + 1, len(names))
+        forms = [(names, None),
+                 (names[:i] + ['-'] + names[j:], names[i:j]),          # stdin in the middle (or at an end)
+                 (['-'] + names[1:], names[:1]),                          # first source on stdin, the others after it
+                 (names[:1] + ['-'], names[1:])]                          # the tail on stdin
+        for argv, stdin_names in forms:
+            data = None if stdin_names is None else ('\n'.join(stdin_names) + '\n').encode()
+            rc, out, err, _ = e2e.s4(e2e.BASE_ARGS + argv, cwd=work, stdin=data)
+            ev += 1
+            if rc != 0 or out != exp:
+                fails.append({'signature': 'merge:tie-order-depends-on-naming-form', 'case': {'argv': argv, 'stdin': stdin_names, 'sources': names},
+                              'detail': f'rc={rc} ' + coord_common.first_diff(out, exp),
+                              'files': {s['name']: s['log'].data.hex() for s in srcs} if sum(len(s['log'].data) for s in srcs) < 20000 else 'large'})
+    return {'evaluations': ev, 'distinct_nontrivial': ev, 'failures': fails, 'samples': [],
+            'rule': f'{n} tie-heavy inputs of 3-5 sources x 4 naming forms (all arguments; `-` splicing stdin names in the middle, at the front, at the end): '
+                    'stdout must equal the reference merge in naming order'}
+
+
 def check(ctx):
     state = {}
 
@@ -20,7 +52,7 @@ def check(ctx):
                                                       sigprefix='merge', tie_heavy_ratio=(3, 4))
         res2, cases2 = coord_common.stall_oracle(c, c.q(2, 12), sigprefix='merge')
         state['cases'] = cases + cases2
-        return core.merge_oracles([res, res2])
+        return core.merge_oracles([res, res2, naming_forms_oracle(c, c.q(6, 40))])
 
     def extra(c):
         return [coord_common.trace_correspondence(c, state.get('cases', []))]
